@@ -89,10 +89,12 @@ func relaxTransitive(want, got wm.Observation) {
 			ws[id] = true
 		}
 		subset := true
+		seen := map[string]bool{}
 		for _, id := range strings.Fields(g) {
-			if !ws[id] {
+			if !ws[id] || seen[id] { // not a referrer at all, or reported twice
 				subset = false
 			}
+			seen[id] = true
 		}
 		if subset && !strings.HasPrefix(g, "PANIC") {
 			got[k] = w
